@@ -6,7 +6,8 @@ Decided statically (necessary conditions visible in the code shape; see DESIGN.m
  R2 every argument of the retry call binds against the solver's real signature (read from installed source);
  R3 retry and first call agree on x, y, taus, weights, lambda_, fit_intercept (missing = callee default;
     `self.<attr>` that is a repo-wide constant is folded) and the retry passes normalize_weights=False;
- R4 the module turns cvxpy UserWarnings into errors and nothing in the package relaxes that filter;
+ R4 a module-level filter turns the solver's inaccuracy warning into an error - judged against how the INSTALLED cvxpy issues it
+    (message text and the module it is attributed to, read from its source) - and nothing in the package relaxes that filter;
  R5 every quantile-regression fit of the conformal model family goes through fit_model;
  R6 retry-safe use of the accumulating solver (fit() appends one vector per tau, read from the installed source): every
     fit_model call site hands over a fresh solver used once and a scalar quantile.
@@ -21,6 +22,44 @@ from ..model import AnalysisError, attr_chain, external_signature
 
 MOD = "elexmodel.models.ConformalElectionModel"
 QRS = "elexsolver.QuantileRegressionSolver.QuantileRegressionSolver"
+
+
+def _inaccuracy_warning_origin(ctx):
+    """Read from the INSTALLED cvxpy how the 'Solution may be inaccurate' UserWarning is issued: its message text and the module
+    it is attributed to (what a `module=` filter is matched against).  Older versions call warnings.warn inside
+    cvxpy.problems.problem (attributed to that module); newer ones call cvxpy.utilities.warn.warn, which attributes the warning
+    to the first caller OUTSIDE the package - for this repository elexsolver.QuantileRegressionSolver."""
+    import importlib.util
+    spec = importlib.util.find_spec("cvxpy.problems.problem")
+    ctx.require(spec is not None and spec.origin, "installed cvxpy source not found")
+    tree = ast.parse(open(spec.origin, encoding="utf-8").read())
+    imported_warn_from = None
+    for n in ast.walk(tree):
+        if isinstance(n, ast.ImportFrom) and any(a.name == "warn" for a in n.names):
+            imported_warn_from = n.module
+    for n in ast.walk(tree):
+        if isinstance(n, ast.Call) and n.args:
+            txt = "".join(x.value for x in ast.walk(n.args[0]) if isinstance(x, ast.Constant) and isinstance(x.value, str))
+            if "may be inaccurate" in txt:
+                ch = attr_chain(n.func) or []
+                if ch == ["warn"] and imported_warn_from and imported_warn_from.startswith("cvxpy"):
+                    return {"message": txt, "attributed_to": "caller outside cvxpy (elexsolver.QuantileRegressionSolver)",
+                            "module": "elexsolver.QuantileRegressionSolver", "via": f"{imported_warn_from}.warn"}
+                if ch[-1:] == ["warn"]:
+                    return {"message": txt, "attributed_to": "cvxpy.problems.problem", "module": "cvxpy.problems.problem", "via": "warnings.warn"}
+    raise AnalysisError("the installed cvxpy no longer issues a 'Solution may be inaccurate' warning in problems/problem.py")
+
+
+def _filter_matches(origin, modre, msgre):
+    """Would warnings.filterwarnings(.., module=modre, message=msgre) select the inaccuracy warning?  Both are regular
+    expressions matched at the START of the module name / message (message case-insensitively); empty = match all."""
+    import re
+    try:
+        okm = modre == "" or re.compile(modre).match(origin["module"]) is not None
+        oks = msgre == "" or re.compile(msgre, re.I).match(origin["message"]) is not None
+    except re.error:
+        return False
+    return okm and oks
 
 
 def _solver_accumulates(ctx):
@@ -115,7 +154,7 @@ def check(ctx):
     )
     ctx.assumptions += [
         "elexsolver.QuantileRegressionSolver.fit behaves as its signature says (semantics of the solver are trusted)",
-        "cvxpy reports inaccurate solutions as UserWarning issued from a module whose name starts with 'cvxpy'",
+        "cvxpy reports inaccurate solutions as the UserWarning found in its installed source (message and attribution read from there)",
     ]
     f = ctx.fn(MOD, "ConformalElectionModel.fit_model")
     sig = external_signature("elexsolver.QuantileRegressionSolver", "QuantileRegressionSolver", "fit")
@@ -234,6 +273,8 @@ def check(ctx):
                    else f"retry uses {p} = {ir.show(r)} but the failed attempt used {ir.show(a)}")
 
     # R4 -------------------------------------------------------------------------------------
+    WARN_ORIGIN = _inaccuracy_warning_origin(ctx)
+    ctx.extra["inaccuracy_warning"] = WARN_ORIGIN
     filt = []
     relax = []
     for m in repo.modules.values():
@@ -249,20 +290,23 @@ def check(ctx):
                 catn = (attr_chain(cat) or ["?"])[-1] if cat is not None else "Warning"
                 modre = util.const(util.kwarg(c, "module"), "")
                 toplevel = util.enclosing_stmt(c) in m.tree.body
-                covers = catn in ("UserWarning", "Warning") and (modre == "" or "cvxpy".startswith(modre) or modre.startswith("cvxpy"))
+                msgre = util.const(util.kwarg(c, "message"), "") or (util.const(c.args[1], "") if len(c.args) > 1 and ch[-1] == "filterwarnings" else "")
+                covers = catn in ("UserWarning", "Warning") and _filter_matches(WARN_ORIGIN, modre, msgre)
                 if action == "error" and covers and toplevel and m.name == MOD:
                     filt.append((m, c))
-                elif action != "error" and catn in ("UserWarning", "Warning", "?"):
-                    relax.append((m, c))
+                elif action != "error" and catn in ("UserWarning", "Warning", "?") and _filter_matches(WARN_ORIGIN, modre, msgre):
+                    relax.append((m, c))  # a non-error filter that selects the inaccuracy warning
             elif ch[-1] in ("resetwarnings",):
                 relax.append((m, c))
             elif ch[-1] == "catch_warnings":
                 relax.append((m, c))
-    ctx.ob("C20.R4.filter", "module|warnings filter error UserWarning cvxpy", bool(filt),
+    ctx.ob("C20.R4.filter", "module|warnings filter turns the solver's inaccuracy warning into an error", bool(filt),
            f"{repo.mod(MOD).relpath}:{filt[0][1].lineno if filt else 1}",
-           "cvxpy UserWarnings are turned into errors at import of ConformalElectionModel" if filt
-           else "no module-level warnings.filterwarnings('error', UserWarning, module='cvxpy'): an inaccurate solution "
-                "would only warn and never reach the retry")
+           f"a module-level filter of ConformalElectionModel turns the installed cvxpy's inaccuracy warning (issued via {WARN_ORIGIN['via']}, "
+           f"attributed to {WARN_ORIGIN['attributed_to']}) into an error" if filt
+           else f"no module-level warnings.filterwarnings('error', UserWarning, ..) of ConformalElectionModel selects the inaccuracy warning of the "
+                f"installed cvxpy: it is issued via {WARN_ORIGIN['via']} and attributed to {WARN_ORIGIN['attributed_to']}, so a filter on "
+                f"module='cvxpy' does not match; the warning is only printed, the inaccurate solution is used and never retried")
     for m, c in relax:
         ctx.ob("C20.R4.relax", f"{m.name}|{util.stmt_text(c)}", False, f"{m.relpath}:{c.lineno}",
                "this call relaxes / resets the warnings filter, so inaccurate-solution warnings may no longer raise")
